@@ -103,10 +103,15 @@ def aff(t, env, depth=0):
     if op == 'and' and a[1][0] == 'c':
         c = a[1][2]
         if c & (c + 1) == 0 and c:
-            # x & (2^k - 1): if x provably below 2^k it is x itself
+            # x & (2^k - 1): if x provably below 2^k it is x itself; if the bits above the mask are the same for every
+            # value x can take (x stays inside one aligned block), it is x minus that constant high part
             X = env.av(a[0])
             if X.hi <= c:
                 return aff(a[0], env, depth + 1)
+            k = c.bit_length()
+            if X.lo >> k == X.hi >> k:
+                A = aff(a[0], env, depth + 1)
+                return _norm(A[0], A[1] - ((X.lo >> k) << k), w)
     return ({t: 1}, 0, w)
 
 
@@ -137,3 +142,23 @@ def diff_const(t1, t2, env, width):
         from . import bvproof
         return bvproof.const_diff_under(t1, t2, env, width)
     return (a[1] - b[1]) & mask(width)
+
+
+def simplify(t, env):
+    """t rewritten through its affine normal form (terms that cancel disappear; masks with a fixed high part become
+    subtractions): same value as t under env, usually much smaller as a bit-level function"""
+    from .terms import O, C
+    if not is_int(t) or t[0] != 'o':
+        return t
+    co, c0, w = aff(t, env)
+    out = C(w, c0)
+    for a_, k in sorted(co.items(), key=lambda kv: str(kv[0])):
+        x = a_
+        if x[1] != w:
+            return t
+        if k >= 1 << (w - 1):
+            k2 = (1 << w) - k
+            out = O(w, 'sub', out, x if k2 == 1 else O(w, 'mul', x, C(w, k2)))
+        else:
+            out = O(w, 'add', out, x if k == 1 else O(w, 'mul', x, C(w, k)))
+    return out
